@@ -17,6 +17,7 @@ import (
 	tstypes "github.com/elys-network/elys/x/tradeshield/types"
 
 	"verifharness/chain"
+	"verifharness/gen"
 	"verifharness/run"
 )
 
@@ -192,6 +193,7 @@ func sortedKeys(m map[string]func() []sdk.Msg) []string {
 var envFaults = []string{
 	"outage_atom_1", "outage_atom_5", "outage_atom_20", "outage_atom_200", "outage_all_1", "outage_all_2", "outage_all_5", "outage_all_20", "outage_all_200",
 	"gap_1h", "gap_25h", "gap_8d", "gap_40d", "gap_400d", "gap_400d_then_outage", "empty_burst_60", "gaps_repeated_week",
+	"pool_drain_same_block", "pools_nearly_emptied", "dust_everything", "failing_txs_with_fees",
 }
 
 func init() {
@@ -272,6 +274,71 @@ func applyFault(c *run.Ctx, w *chain.World, g freeGen, name string, edges map[st
 		}
 	case name == "gaps_repeated_week":
 		g.Free(8, func(i int) int64 { return 7 * 86400 })
+	case name == "pool_drain_same_block":
+		// swap requests are accepted, then the biggest LP of each pool exits 99 % later in the same block
+		gg := g.(*gen.Gen)
+		for pid := uint64(1); pid <= 3 && !w.Dead; pid++ {
+			ctx := w.ReadCtx()
+			if _, ok := w.App.AmmKeeper.GetPool(ctx, pid); !ok {
+				continue
+			}
+			txs := []*chain.TxRecord{}
+			for _, a := range w.Users[4:8] {
+				if m := gg.Op("swapIn1", a, ctx); m != nil {
+					txs = append(txs, w.Tx(a, m))
+				}
+				if m := gg.Op("swapOut1", w.Users[8], ctx); m != nil && len(txs) == 2 {
+					txs = append(txs, w.Tx(w.Users[8], m))
+				}
+			}
+			cm := w.App.CommitmentKeeper.GetCommitments(ctx, w.Users[0].Addr)
+			have := cm.GetCommittedAmountForDenom(ammtypes.GetPoolShareDenom(pid))
+			if have.IsPositive() {
+				txs = append(txs, w.Tx(w.Users[0], &ammtypes.MsgExitPool{Sender: w.Users[0].S(), PoolId: pid, ShareAmountIn: have.MulRaw(99).QuoRaw(100), MinAmountsOut: sdk.NewCoins()}))
+			}
+			w.Step(4000, txs...)
+		}
+	case name == "pools_nearly_emptied":
+		// every LP exits as much as it is allowed to, twice, then the blockers run on what is left
+		for round := 0; round < 2 && !w.Dead; round++ {
+			ctx := w.ReadCtx()
+			txs := []*chain.TxRecord{}
+			for _, a := range w.Users {
+				cm := w.App.CommitmentKeeper.GetCommitments(ctx, a.Addr)
+				for pid := uint64(1); pid <= 3; pid++ {
+					have := cm.GetCommittedAmountForDenom(ammtypes.GetPoolShareDenom(pid))
+					if have.IsPositive() {
+						txs = append(txs, w.Tx(a, &ammtypes.MsgExitPool{Sender: a.S(), PoolId: pid, ShareAmountIn: have.MulRaw(999).QuoRaw(1000), MinAmountsOut: sdk.NewCoins()}))
+						break
+					}
+				}
+			}
+			w.Step(4000, txs...)
+		}
+		g.Free(10, nil)
+	case name == "dust_everything":
+		// one-unit bonds, joins, swaps, opens and vests from everybody, then long gaps
+		gg := g.(*gen.Gen)
+		h := gg.Hostile
+		gg.Hostile = 1
+		g.Free(12, nil)
+		gg.Hostile = h
+		u := w.Users
+		w.Step(5, w.Tx(u[3], &sstypes.MsgBond{Creator: u[3].S(), Amount: math.NewInt(1)}), w.Tx(u[4], &ammtypes.MsgJoinPool{Sender: u[4].S(), PoolId: 1, MaxAmountsIn: sdk.NewCoins(chain.Coin("uusdc", 1)), ShareAmountOut: math.NewInt(1)}),
+			w.Tx(u[5], &lptypes.MsgOpen{Creator: u[5].S(), CollateralAsset: "uusdc", CollateralAmount: math.NewInt(1), AmmPoolId: 1, Leverage: d("1.5"), StopLossPrice: math.LegacyZeroDec()}),
+			w.Tx(u[6], &perptypes.MsgOpen{Creator: u[6].S(), Position: perptypes.Position_LONG, Leverage: d("2"), TradingAsset: "uatom", Collateral: chain.Coin("uusdc", 1), TakeProfitPrice: w.Prices["ATOM"].MulInt64(3), StopLossPrice: math.LegacyZeroDec(), PoolId: 1}),
+			w.Tx(u[7], &commitmenttypes.MsgVest{Creator: u[7].S(), Amount: math.NewInt(1), Denom: "ueden"}))
+		g.Free(4, func(i int) int64 { return []int64{86400, 86400 * 30, 5, 5}[i] })
+	case name == "failing_txs_with_fees":
+		// transactions that fail in the message while paying fees in every denom
+		for i := 0; i < 6 && !w.Dead; i++ {
+			txs := []*chain.TxRecord{}
+			for j, a := range w.Users[3:9] {
+				fee := sdk.NewCoins(chain.Coin([]string{"uusdc", "uatom", "uelys"}[(i+j)%3], int64(1+j*977)))
+				txs = append(txs, w.TxFee(a, fee, &sstypes.MsgUnbond{Creator: a.S(), Amount: math.NewIntWithDecimal(1, 30)}))
+			}
+			w.Step(5, txs...)
+		}
 	default:
 		panic("unknown fault " + name)
 	}
